@@ -3,6 +3,7 @@
 (* C18: admission responses faithfully reflect handler outcomes and the    *)
 (* requested mutations.  Reference over JV.tla:                            *)
 (*   Selected(h, rv)  which registered webhook handlers serve a review      *)
+(*   (webhook id, operation, subresource, filters on the reviewed object)  *)
 (*   Allowed / Status / Warnings of the response                           *)
 (*   Expected object = transformations applied to RFC 7386 merge of the    *)
 (*   handlers' instructions into the reviewed object; the returned JSON    *)
@@ -18,13 +19,24 @@ EXTENDS JV
 Rank(o) == CASE o = "adm" -> 0 [] o = "perm" -> 1 [] o = "temp" -> 2 [] OTHER -> 9
 
 \* strictOps = TRUE is the statement ("only handlers matching ... operation ... run"); FALSE is family F12
-SelectedG(h, rv, strictOps) ==
+\* the handler's filters, judged on the reviewed object (the new one; the old one when the review is about a deletion)
+FltOk(f, cur) ==
+  LET la == Get(cur, <<"metadata", "labels", "l">>)  fa == Get(cur, <<"spec", "a">>) IN
+  CASE f = "" -> TRUE
+    [] f = "lab_eq" -> JEq(la, S("v"))
+    [] f = "lab_absent" -> IsAbsent(la)
+    [] f = "fld_present" -> ~IsAbsent(fa)
+    [] f \in {"fld_eq1", "fld_cb1"} -> JEq(fa, I(1))
+    [] f = "fld_absent" -> IsAbsent(fa)
+    [] f = "when_F" -> FALSE
+    [] f = "when_T" -> TRUE
+SelectedH(h, rv, strictOps) ==
   /\ (rv.webhook = "" \/ rv.webhook = h.id)
   /\ (h.typ = "mutating" /\ rv.op = "DELETE" => h.ops = <<"DELETE">>)
   /\ (h.sub = "*" \/ h.sub = rv.sub)
   /\ (strictOps => (h.ops = <<>> \/ \E i \in DOMAIN h.ops : h.ops[i] = rv.op))
 
-SelIdx(rec, strict) == {i \in DOMAIN rec.handlers : SelectedG(rec.handlers[i], rec.review, strict)}
+SelIdx(rec, strict) == {i \in DOMAIN rec.handlers : SelectedH(rec.handlers[i], rec.review, strict) /\ FltOk(rec.handlers[i].flt, rec.body)}
 SeqOfSet(Q) == LET RECURSIVE F(_) F(T) == IF T = {} THEN <<>> ELSE LET m == CHOOSE x \in T : \A y \in T : x <= y IN <<m>> \o F(T \ {m}) IN F(Q)
 
 Failed(rec, sel) == {i \in sel : rec.handlers[i].outcome # "ok"}
